@@ -5,3 +5,5 @@ git -C /repo apply "$P" || { echo "patch does not apply"; exit 2; }
 for c in "$@"; do ./check "$c" 2>&1 | tail -4; echo "rc($c)=$?"; done
 git -C /repo checkout -- .
 git -C /repo status --short | head -3
+# leave no binary built against the changed tree behind
+(cd /verif/harness && CARGO_NET_OFFLINE=true cargo build --release --offline -q 2>/dev/null)
